@@ -41,6 +41,7 @@ func (x *Exec) execCall(f *Frame, i *ssa.Call) {
 	}
 	if callee != nil && callee.Pkg != nil && callee.Pkg.Pkg.Path() == "google.golang.org/protobuf/proto" && (callee.Name() == "Unmarshal" || callee.Name() == "Marshal") {
 		x.execProto(f, i, callee)
+		x.afterCallAt(f, i)
 		return
 	}
 	var binds []Val
